@@ -4,6 +4,8 @@
 // width) plus equality of the text across three kinds of target stream.
 #include "common/vcommon.hpp"
 
+#include <iomanip>
+
 #include <nitro/options/parser.hpp>
 
 #include <cstdlib>
@@ -19,6 +21,7 @@ struct UEntry
     std::vector<std::string> mdef;
     bool reversible = false;
     bool tdef = false;
+    int tdefi = 0; // != 0: the default is given through the int overload (a count; also negative)
     int group = 0; // 0 default group, k = extra group k-1
     bool redeclare = false; // request the same entry a second time later on
 
@@ -36,6 +39,7 @@ struct UEntry
         a("mdef", mdef);
         a("rev", reversible);
         a("tdef", tdef);
+        a("tdefi", tdefi);
         a("group", group);
         a("again", redeclare);
     }
@@ -62,6 +66,9 @@ struct Case
     int prior = 0; // bytes already in the second target stream
     int moved = 0; // 0: as declared, 1: parser move-constructed before usage(), 2: move-assigned
     int columns = 0; // > 0: the environment variable COLUMNS is set to this while usage() runs
+    int fmtstate = 0; // formatting state of the second target stream (bits: fill '0', fill '*', hex/showbase/
+                      // uppercase, left, boolalpha, fixed with precision 2)
+    bool early = false; // usage() is also called once before any entry is declared (the groups exist, empty)
 
     template <class A>
     void io(A& a)
@@ -76,6 +83,8 @@ struct Case
         a("prior", prior);
         a("moved", moved);
         a("columns", columns);
+        a("fmtstate", fmtstate);
+        a("early", early);
     }
 };
 
@@ -202,6 +211,8 @@ Case generate(vf::Src& src, const std::string&)
         {
             e.reversible = src.coin(50);
             e.tdef = src.coin(50);
+            if (src.coin(30))
+                e.tdefi = std::vector<int>{ -3, -1, 1, 2, 7 }[src.index(5)];
         }
         e.group = c.groups.empty() ? 0 : src.irange(0, static_cast<int>(c.groups.size()));
         e.redeclare = src.coin(15);
@@ -214,6 +225,9 @@ Case generate(vf::Src& src, const std::string&)
     c.moved = static_cast<int>(src.weighted({ 70, 15, 15 }));
     if (src.coin(12))
         c.columns = std::vector<int>{ 40, 79, 81, 100, 132, 238 }[src.index(6)];
+    if (src.coin(30))
+        c.fmtstate = src.irange(1, 63);
+    c.early = src.coin(20);
     return c;
 }
 
@@ -287,9 +301,20 @@ static std::unique_ptr<nitro::options::parser> build(const Case& c)
             if (!e.env.empty())
                 o.env(e.env);
             if (e.has_default)
-                o.default_value(e.tdef);
+            {
+                if (e.tdefi != 0)
+                    o.default_value(e.tdefi);
+                else
+                    o.default_value(e.tdef);
+            }
         }
     };
+    if (c.early)
+    {
+        // the text of an earlier moment (no entries yet) goes elsewhere
+        std::ostringstream scratch;
+        p->usage(scratch);
+    }
     for (auto& e : c.e)
         declare(e);
     // requesting an entry again must not list it twice
@@ -344,6 +369,25 @@ std::string check(const Case& c, vf::Ctx& ctx)
     if (c.prior > 3)
         prior[static_cast<std::size_t>(c.prior) / 2] = '\n';
     used << prior;
+    if (c.fmtstate)
+    {
+        // whatever the caller did to the stream before (zero-padded numbers, hex dumps, ...)
+        ctx.tag("target:formatting-state");
+        if (c.fmtstate & 1)
+            used.fill('0');
+        if (c.fmtstate & 2)
+            used.fill('*');
+        if (c.fmtstate & 4)
+            used << std::hex << std::showbase << std::uppercase;
+        if (c.fmtstate & 8)
+            used << std::left;
+        if (c.fmtstate & 16)
+            used << std::boolalpha;
+        if (c.fmtstate & 32)
+            used << std::fixed << std::setprecision(2);
+    }
+    if (c.early)
+        ctx.tag("usage:also-called-before-the-entries-were-declared");
     p->usage(used);
     std::string text2 = used.str().substr(prior.size());
 
@@ -383,7 +427,8 @@ std::string check(const Case& c, vf::Ctx& ctx)
     {
         std::size_t d = first_diff(text, text2);
         return "usage text differs when the stream already holds " + std::to_string(c.prior) +
-               " bytes; first difference at offset " + std::to_string(d) + ": fresh " +
+               " bytes" + (c.fmtstate ? " and carries formatting state " + std::to_string(c.fmtstate) : std::string()) +
+               "; first difference at offset " + std::to_string(d) + ": fresh " +
                vf::vis(text.substr(d > 20 ? d - 20 : 0, 70)) + " vs " +
                vf::vis(text2.substr(d > 20 ? d - 20 : 0, 70));
     }
@@ -559,7 +604,7 @@ std::string check(const Case& c, vf::Ctx& ctx)
             }
             if (e->kind == 2 && e->reversible)
                 for (auto& w : words_of(std::string("(default: ") +
-                                        (e->has_default && e->tdef ? "enabled" : "disabled") + ")"))
+                                        (e->has_default && (e->tdefi != 0 || e->tdef) ? "enabled" : "disabled") + ")"))
                     want.push_back(w);
             std::vector<std::string> got = words_of(cell);
             if (got != want)
